@@ -207,7 +207,8 @@ class EnvSpec:
                 wheel_range = parse_version_specifier(f"=={major}.{minor}.*")
             else:
                 wheel_range = parse_version_specifier(f"=={major}.*")
-        except InvalidSpecifier:
+        except ValueError:
+            # InvalidSpecifier, or a python tag whose version part is not numeric
             return None
         if (wheel_range & self.requires_python).is_empty():
             return None
